@@ -39,6 +39,13 @@ RUNG_SETUPS = [
 ]
 
 
+DYHPO_SETUPS = [
+    dict(grace_period=1, rung_increment=1, max_t=6),      # [1, 2, 3, 4, 5]
+    dict(grace_period=2, rung_increment=2, max_t=9),      # [2, 4, 6, 8]
+    dict(grace_period=1, rung_increment=1, max_t=4),
+]
+
+
 class OneHot:
     """harness-side bracket distribution: next sampled bracket is `self.b`"""
 
@@ -85,14 +92,15 @@ def gen_spec(rng, fits=False):
 def make_scheduler(spec):
     from syne_tune.optimizer.schedulers.hyperband import HyperbandScheduler
     from syne_tune.config_space import uniform, randint
-    setup = dict(RUNG_SETUPS[spec["rungs"]])
+    is_dyhpo = spec["type"] == "dyhpo"
+    setup = dict((DYHPO_SETUPS[spec["rungs"] % len(DYHPO_SETUPS)] if is_dyhpo else RUNG_SETUPS[spec["rungs"]]))
     max_t = setup.pop("max_t")
     cs = {"x": uniform(0.0, 1.0), "y": randint(0, 1000), "epochs": max_t}
     sink = io.StringIO()
     with contextlib.redirect_stdout(sink), contextlib.redirect_stderr(sink):
         sch = HyperbandScheduler(
-            cs, searcher=spec["searcher"], type=spec["type"], metric="m", mode=spec["mode"],
-            resource_attr="epoch", max_resource_attr="epochs", brackets=spec["brackets"],
+            cs, searcher="dyhpo" if is_dyhpo else spec["searcher"], type=spec["type"], metric="m", mode=spec["mode"],
+            resource_attr="epoch", max_resource_attr="epochs", brackets=1 if is_dyhpo else spec["brackets"],
             searcher_data=spec["searcher_data"], register_pending_myopic=spec["myopic"],
             rung_system_per_bracket=spec["per_bracket"], random_seed=spec["seed"] % 10000,
             search_options={"num_init_random": spec["num_init_random"], "debug_log": False,
@@ -110,8 +118,20 @@ def make_scheduler(spec):
     return sch, onehot, max_t
 
 
+class _Obj:
+    def __init__(self, **kw):
+        self.__dict__.update(kw)
+
+
 def read_state(sch):
-    st = sch.searcher.state_transformer.state
+    if not hasattr(sch.searcher, "state_transformer"):
+        # DynamicHPOSearcher wraps the GP searcher that owns the TuningJobState: read it through the public get_state()
+        enc = sch.searcher.get_state()["searcher_int"]["state"]
+        st = _Obj(trials_evaluations=[_Obj(trial_id=e["trial_id"], metrics=e["metrics"]) for e in enc["trials_evaluations"]],
+                  pending_evaluations=[_Obj(trial_id=p["trial_id"], resource=p.get("resource")) for p in enc["pending_evaluations"]],
+                  failed_trials=list(enc["failed_trials"]))
+    else:
+        st = sch.searcher.state_transformer.state
     obs, dup_trial = [], False
     seen = set()
     for ev in st.trials_evaluations:
@@ -444,7 +464,7 @@ def run_sync_case(spec):
 def coq_config(spec, rung_levels, max_t):
     return ("{| rung_levels := %s; max_t := %d; pol := %s; myopic := %s; sty := %s; maximize := %s |}" % (
         lst([str(x) for x in rung_levels]), max_t, POLICY[spec["searcher_data"]], blit(spec["myopic"]),
-        "Stopping" if spec["type"] == "stopping" else "Promotion", blit(spec["mode"] == "max")))
+        "Stopping" if spec["type"] == "stopping" else "Promotion", blit(spec["mode"] == "max")))   # dyhpo: promotion-type
 
 
 def coq_snapshot(sn):
@@ -482,6 +502,10 @@ def run(ctx, replay=None):
     else:
         todo = [(gen_spec(rng), None) for _ in range(ctx.n(260, 4000))]
         todo += [(gen_spec(rng, fits=True), None) for _ in range(ctx.n(3, 40))]
+        for _ in range(ctx.n(24, 300)):      # DyHPO (type="dyhpo", searcher="dyhpo"): promotion-type data path
+            sp = gen_spec(rng)
+            sp.update(type="dyhpo", searcher="dyhpo", brackets=1, per_bracket=False, num_init_random=10000)
+            todo.append((sp, None))
     cases, meta = [], []
     for spec, ops in todo:
         res = run_case(spec, ops)
